@@ -64,6 +64,11 @@ CLAIMS = {
    ref="§4 C03",
    note="Case-set sites (universe from grammar/type-checker invariants, one reviewed line each in tables/c03_switches.tsv) only detect the loss of a case; a new must-panic switch must be classified before the check passes (fails loudly rather than silently).",
    technique="exhaustiveness analysis of type/string switches against universes computed from go/types, inspector filters and reviewed tables"),
+ "C08": dict(
+   text="Decides that the three pre-filters are over-approximations by construction: entry-node table vs. node kinds (evaluated from the table literal), classification of every matcher kind, negative/optional polarity in collectSymbols, CouldMatchAny's coverage of collectSymbols' result kinds, the conditions under which the call index replaces the traversal, and — over all 90 pattern constants of the module, read with a small reader of the pattern language — that every symbol the package rejection requires is resolvable by the index. Necessary conditions; equivalence of the two search strategies on all programs (third-package aliases, wrapper nodes) is not decided.",
+   ref="§4 C08",
+   note="The pattern reader re-implements only the requirement algebra (And/Or/Any) documented for SymbolsPattern; typeindex is trusted to find all direct references.",
+   technique="table-literal evaluation + case-set and value-origin analysis + static evaluation of all pattern constants"),
 }
 
 NOT_APPLICABLE = {
